@@ -2,6 +2,8 @@ package main
 
 import (
 	"embed"
+	"fmt"
+	"io"
 	"io/ioutil"
 	"net/http"
 	"os"
@@ -34,7 +36,7 @@ func genC19(r *h.Rand, tier string) []h.Case {
 	}
 	var cs []h.Case
 	for i := 0; i < n; i++ {
-		switch i % 4 {
+		switch i % 5 {
 		case 0, 1: // in-memory loader histories with arbitrary spellings
 			nops := 3 + r.Intn(10)
 			cmd := sx.L(sx.A("inmem"))
@@ -94,6 +96,40 @@ func genC19(r *h.Rand, tier string) []h.Case {
 				qs.Add(sx.L(sx.A("open"), sx.S(p)))
 			}
 			cs = append(cs, h.Case{Stream: "multi", Cmd: sx.L(sx.A("multi"), loaders, qs), NonTrivial: nl > 1, Tags: []string{"multi"}})
+		case 3:
+			nl := 2 + r.Intn(2)
+			paths := []string{"/a.jet", "/b.jet", "/d/c.jet"}
+			c := sx.L(sx.A("multi-history"), sx.I(int64(nl)))
+			nops := 5 + r.Intn(10)
+			ver := 0
+			for k := 0; k < nops; k++ {
+				p := r.Pick(paths)
+				switch pickW(r, "set", 3, "del", 1, "exists", 3, "open", 4) {
+				case "set":
+					ver++
+					c.Add(sx.L(sx.A("set"), sx.I(int64(r.Intn(nl))), sx.S(r.Pick([]string{p, "/x/.." + p, p[1:]})), sx.S(fmt.Sprintf("v%d", ver))))
+				case "del":
+					c.Add(sx.L(sx.A("del"), sx.I(int64(r.Intn(nl))), sx.S(p)))
+				case "exists":
+					c.Add(sx.L(sx.A("exists"), sx.S(p)))
+				default:
+					c.Add(sx.L(sx.A("open"), sx.S(p)))
+				}
+			}
+			if r.Chance(60) {
+				// a path first served by a later loader, then gained (or lost) by an earlier one
+				p := r.Pick(paths)
+				late := 1 + r.Intn(nl-1)
+				c.Add(sx.L(sx.A("del"), sx.I(0), sx.S(p)))
+				c.Add(sx.L(sx.A("set"), sx.I(int64(late)), sx.S(p), sx.S("late")))
+				c.Add(sx.L(sx.A(r.Pick([]string{"exists", "open"})), sx.S(p)))
+				c.Add(sx.L(sx.A("set"), sx.I(int64(r.Intn(late))), sx.S(p), sx.S("early")))
+				c.Add(sx.L(sx.A("open"), sx.S(p)))
+				c.Add(sx.L(sx.A("exists"), sx.S(p)))
+				c.Add(sx.L(sx.A("del"), sx.I(int64(late)), sx.S(p)))
+				c.Add(sx.L(sx.A("open"), sx.S(p)))
+			}
+			cs = append(cs, h.Case{Stream: "multi-history", Cmd: c, NonTrivial: true, Tags: []string{"multi-history"}})
 		default: // file-system loaders: every canonical path of the tree and near-misses (oracle only)
 			all := []string{}
 			for p := range fsFiles {
@@ -170,6 +206,69 @@ func init() {
 					out.Add(sx.B(b))
 					if (!has || string(b) != want) && fail == "" {
 						fail = "Open(" + strconv.Quote(p) + ") = " + strconv.Quote(string(b)) + ", stored: " + strconv.Quote(want)
+					}
+				}
+			}
+		}
+		return out, fail
+	})
+	// (multi-history n ops...): one long-lived Multi over n in-memory loaders that are edited while it is queried
+	h.RegisterImpl("multi-history", func(cmd, _ *sx.Sexp) (*sx.Sexp, string) {
+		n := atoi(cmd.Xs[1].A)
+		var ims []*jet.InMemLoader
+		var ls []jet.Loader
+		var refs []map[string]string
+		for i := 0; i < n; i++ {
+			im := jet.NewInMemLoader()
+			ims = append(ims, im)
+			ls = append(ls, im)
+			refs = append(refs, map[string]string{})
+		}
+		m := multi.NewLoader(ls[0])
+		m.AddLoaders(ls[1:]...)
+		out := sx.L()
+		fail := ""
+		for _, op := range cmd.Xs[2:] {
+			switch op.Xs[0].A {
+			case "set":
+				i := atoi(op.Xs[1].A)
+				ims[i].Set(string(op.Xs[2].B), string(op.Xs[3].B))
+				refs[i][refNormalize(string(op.Xs[2].B))] = string(op.Xs[3].B)
+				out.Add(sx.A("ok"))
+			case "del":
+				i := atoi(op.Xs[1].A)
+				ims[i].Delete(string(op.Xs[2].B))
+				delete(refs[i], refNormalize(string(op.Xs[2].B)))
+				out.Add(sx.A("ok"))
+			default:
+				p := string(op.Xs[1].B)
+				want, has := "", false
+				for _, ref := range refs {
+					if c, ok := ref[refNormalize(p)]; ok {
+						want, has = c, true
+						break
+					}
+				}
+				if op.Xs[0].A == "exists" {
+					e := m.Exists(p)
+					out.Add(sx.Bool(e))
+					if e != has && fail == "" {
+						fail = fmt.Sprintf("Multi.Exists(%s) = %v, the first loader that has it: %v", p, e, has)
+					}
+				} else {
+					f, err := m.Open(p)
+					if err != nil {
+						out.Add(sx.A("none"))
+						if has && fail == "" {
+							fail = "Multi.Open(" + p + ") failed although a stacked loader has the path"
+						}
+					} else {
+						b, _ := io.ReadAll(f)
+						f.Close()
+						out.Add(sx.S(string(b)))
+						if (!has || string(b) != want) && fail == "" {
+							fail = fmt.Sprintf("Multi.Open(%s) returned %q, the first stacked loader that has the path holds %q (exists=%v)", p, b, want, has)
+						}
 					}
 				}
 			}
